@@ -1,14 +1,16 @@
 #!/bin/sh
 # seedverify.sh <worktree> <pkgdir> <seed-name>: confirm (a) suite passes with the change, (b) demo fails with it,
-# (c) demo passes without it; then store the seed under /verif/seeded/<seed-name>.
+# (c) demo passes without it; then store the seed under /verif/seeded/<seed-name>. The change is taken from
+# _seed/patch.diff (git stash is shared between worktrees, so the worktree state itself is not trusted).
 export GOFLAGS=-mod=mod GOPROXY=off GOSUMDB=off GOTOOLCHAIN=local
 d=$1; pk=$2; name=$3
 cd $d || exit 2
+git checkout -q -- . ; git apply _seed/patch.diff || { echo "$name: patch does not apply"; exit 2; }
 a=$(go build ./... 2>&1 && go test -vet=off -count=1 ./... 2>&1 | grep -v 'no test files' | grep -cv '^ok')
 cp _seed/demo_test.go $pk/zz_seed_demo_test.go
 b=$(go test -vet=off -count=1 -run 'Seed' ./$pk/ 2>&1 | tail -1 | cut -c1-60)
-git stash -q
+git apply -R _seed/patch.diff
 c=$(go test -vet=off -count=1 -run 'Seed' ./$pk/ 2>&1 | tail -1 | cut -c1-60)
-git stash pop -q; rm -f $pk/zz_seed_demo_test.go
+rm -f $pk/zz_seed_demo_test.go
 echo "$name: (a) failing-packages=$a (b) with-change: $b (c) without: $c"
 mkdir -p /verif/seeded/$name && cp _seed/* /verif/seeded/$name/
